@@ -12,7 +12,8 @@ POLICIES = ["pct", "starve", "starve", "yield", "yield", "yield", "random", "rr"
 
 def gen_session(rng, quick):
     """returns (workloads, steps, sched, family)"""
-    fam = rng.choice(["same_gtf", "same_gtf", "diff_gtf", "adopt_rebuild", "mixed_flags", "same_basename", "shared_genedb_output"])
+    fam = rng.choice(["same_gtf", "same_gtf", "diff_gtf", "adopt_rebuild", "mixed_flags", "same_basename", "shared_genedb_output",
+                      "peer_killed"])
     n = rng.choice([2, 2, 3] if quick else [2, 2, 3, 4])
     w0 = dict(TINY, seed=rng.randrange(1 << 20))
     w1 = dict(TINY, seed=rng.randrange(1 << 20), genes_per_chr=3)
@@ -40,6 +41,13 @@ def gen_session(rng, quick):
         # separate -o folders, one --genedb_output folder for the converted databases, annotations with one file name
         workloads = [{"spec": w0, "same_basename_dir": True}, {"spec": w1, "same_basename_dir": True}]
         steps.append({"run": [{"wl": i % 2, "opts": {"extra": ["--genedb_output", "<shared>"]}, "out": names[i]} for i in range(n)]})
+    elif fam == "peer_killed":
+        # one of the concurrent runs is killed (SIGKILL of that run only) at a seeded shared event; the others must finish
+        # with their stand-alone results and the cache must stay well-formed
+        if rng.random() < 0.5:
+            workloads.append({"spec": w1})
+        steps.append({"run": [{"wl": i % len(workloads), "opts": opts(), "out": names[i]} for i in range(max(2, n))],
+                      "fault": {"kind": "kill_actor", "index": rng.randrange(4, 110), "phase": rng.choice(["before", "after"])}})
     elif fam == "mixed_flags":
         steps.append({"run": [{"wl": 0, "opts": opts(), "out": names[i]} for i in range(n)]})
     else:
@@ -75,6 +83,8 @@ def judge(session_res, golden, workloads, steps):
         return [("harness", {}, last["harness_error"])]
     for a, ar in zip(run_actors, last["actors"]):
         key = json.dumps([a["wl"], a.get("opts") or {}], sort_keys=True)
+        if ar["exit"] == "killed":
+            continue        # the injected fault: this run is not judged, its peers are
         if ar["exit"] != 0:
             out.append(("a:exit0", {"symptom": "exit%s:%s" % (ar["exit"], ar.get("failure_site")),
                                     "clean_start": bool((a.get("opts") or {}).get("clean_start")),
@@ -191,6 +201,8 @@ def run(chk, orch):
             chk.evaluations += 1
             chk.distinct.add(res["trace_sha"])
             chk.faults["concurrent_peer"] += len(steps[-1]["run"]) - 1
+            for kl in res["steps"][-1].get("killed") or []:
+                chk.faults["peer_killed/" + kl[2]] += 1
             if fam == "adopt_rebuild":
                 chk.faults["stale_or_rebuilt_foreign_cache_state"] += 1
             for pk, pv in (res.get("probes") or {}).items():
